@@ -121,7 +121,9 @@ Fixpoint first_free (t : list (id * pid)) (nx : id) (fuel : nat) : option id :=
            | Some _ => first_free t (N.modulo (nx + 1) 65536) f
            end
   end.
-Definition table_full (t : list (id * pid)) : bool := 65536 <=? N.of_nat (List.length t).
+(* len(table) > 0xffff: every identifier is in the table *)
+Definition TABLE_CAP : N := 65536.
+Definition table_full (t : list (id * pid)) : bool := TABLE_CAP <=? N.of_nat (List.length t).
 Definition alloc (t : list (id * pid)) (nx : id) : option id := first_free t nx (S (List.length t)).
 (* table.id after one call that takes an identifier and gives it back *)
 Definition bump (t : list (id * pid)) (nx : id) : id :=
